@@ -32,6 +32,13 @@ pub fn gen_cases(prop: &str, tier: &str, seed: u64, out: &mut dyn FnMut(Value)) 
         "C02" => props::c02::gen(tier, seed, out),
         "C16" => props::c16::gen(tier, seed, out),
         "C15" => props::c15::gen(tier, seed, out),
+        "C01" => props::c01::gen(tier, seed, out),
+        "C06" => props::engine_props::gen_c06(tier, seed, out),
+        "C07" => props::engine_props::gen_c07(tier, seed, out),
+        "C09" => props::engine_props::gen_c09(tier, seed, out),
+        "C10" => props::engine_props::gen_c10(tier, seed, out),
+        "C12" => props::engine_props::gen_c12(tier, seed, out),
+        "C13" => props::engine_props::gen_c13(tier, seed, out),
         _ => return Err(format!("no generator for {prop}")),
     }
     Ok(())
